@@ -470,3 +470,211 @@ Proof.
     + exists s, o. split; [exact L|reflexivity].
     + rewrite rget_set_other in U by exact N. apply (i_own _ _ I h U).
 Qed.
+
+Ltac simp_rec := unfold consumed, lastp in *;
+                 cbn [m_live m_mode m_pc m_start m_cur m_deliv m_eos m_eos_ok m_kicked m_lost
+                      r_pos r_sub r_awt r_used r_kicked with_pos with_awt with_pc with_lost awt_pc idle_pc] in *.
+
+Ltac fail_show := match goal with |- ?g => idtac "OPEN:" g end.
+Ltac splits := repeat match goal with |- _ /\ _ => split end.
+
+Lemma R_viol e m : good_b m = true -> R e (set_viol m).
+Proof. intros G. split; [exact G|left; reflexivity]. Qed.
+
+Lemma R_same e m : good_b m = true -> Inv e m -> R e m.
+Proof. intros G I. split; [exact G|right; exact I]. Qed.
+
+Lemma valid_mode_cases t : valid_mode t = true -> t = 0 \/ t = 1 \/ t = 2.
+Proof. unfold valid_mode. lia. Qed.
+
+(* ---- advance_lk ---- *)
+Lemma advance_lk_cases q h t :
+  let l := rget (regs q) h in
+  (advance_lk q h t = (q, false) /\ (r_kicked l = true \/ (wrap (r_pos l + 1) = qpos q /\ closed q = false))) \/
+  (advance_lk q h t = (set_reg q h (with_pos l
+       (if t =? 1 then Z.max (wrap (r_pos l + 1)) (wrap (qpos q - zlen (qd q)))
+        else if t =? 2 then Z.max (wrap (r_pos l + 1)) (wrap (qpos q - 1)) else wrap (r_pos l + 1))), true) /\
+   r_kicked l = false /\ ~ (wrap (r_pos l + 1) = qpos q /\ closed q = false)).
+Proof.
+  intros l. unfold advance_lk. fold l.
+  destruct (r_kicked l) eqn:K; [left; split; [reflexivity|left; reflexivity]|].
+  destruct ((wrap (r_pos l + 1) =? qpos q) && negb (closed q)) eqn:E.
+  - left. split; [reflexivity|right]. apply andb_prop in E as [E1 E2]. split; [lia|]. destruct (closed q); [discriminate|reflexivity].
+  - right. split; [reflexivity|]. split; [reflexivity|]. intros [A B]. rewrite B in E. cbn in E. lia.
+Qed.
+
+Lemma awt_same_keep l h x b : (h < length l)%nat ->
+  NoDup (flat_map awt_of l) -> (forall a, In a (flat_map awt_of l) -> a < b) ->
+  (awt_of x = [] \/ awt_of x = awt_of (rget l h)) ->
+  NoDup (flat_map awt_of (set_nth l h x)) /\ (forall a, In a (flat_map awt_of (set_nth l h x)) -> a < b).
+Proof.
+  intros L N B X.
+  destruct (set_nth_split l h x L) as (l1 & y & l2 & E1 & E2 & E3).
+  assert (Y : rget l h = y) by (rewrite E1, <- E2; apply rget_split).
+  rewrite E3. rewrite E1 in N, B. rewrite flat_map_split in *. rewrite Y in X.
+  destruct X as [X|X]; rewrite X.
+  - cbn [app]. split; [apply NoDup_drop_mid with (b := awt_of y); exact N|].
+    intros a I. apply B. apply in_app_iff in I. apply in_app_iff. destruct I as [I|I]; [left; exact I|].
+    right. apply in_app_iff. right. exact I.
+  - split; [exact N|exact B].
+Qed.
+
+Lemma step_ready e m s : good_b m = true -> m_viol m = false -> Inv e m ->
+  R (fst (step e (OReady s))) (mon_step m (OReady s) (snd (step e (OReady s)))).
+Proof.
+  intros G V I. unfold step, step_gen, mon_step. rewrite V.
+  destruct (live_obj e s) as [o|] eqn:L; cbn [fst snd o_st rejected ok3 Z.eqb negb o_a o_b].
+  2:{ apply R_same; assumption. }
+  destruct (inv_rec _ _ _ _ I L) as (r & Gr & LV). rewrite Gr, LV. cbn [negb orb].
+  destruct (idle_pc (m_pc r)) eqn:IP; cbn [negb orb]; [|apply R_viol; exact G].
+  destruct (HALF <=? pos_of (fst (advance_lk (pq e) (s_h o) (s_mode o))) (s_h o)) eqn:HB; [apply R_viol; exact G|].
+  pose proof (i_sub _ _ I s o r L Gr) as (U & SB & MD & VM & KK & CU & RG & AW & PO).
+  assert (HL : (s_h o < length (regs (pq e)))%nat) by (apply rget_used_lt; exact U).
+  pose proof (good_rec _ _ _ G Gr) as GR.
+  pose proof (i_g _ _ I) as [G1 G2 G3 G4 G5 G6]. pose proof (win_len _ _ G5) as WL.
+  pose proof (zlen_nonneg (qd (pq e))) as QN. fold (npub m) in *.
+  assert (HW : HALF < W) by reflexivity.
+  set (l := rget (regs (pq e)) (s_h o)) in *.
+  assert (W1 : wrap (r_pos l + 1) = r_pos l + 1) by (apply wrap_small; lia).
+  destruct (advance_lk_cases (pq e) (s_h o) (s_mode o)) as [(E & C)|(E & K & C)]; fold l in E, C.
+  - (* not ready: nothing changes *)
+    rewrite E in *. cbn [fst snd b2z Z.eqb] in *.
+    split.
+    + apply good_set_sub; [exact G|]. cbn [rec_good_b m_mode m_start m_deliv m_eos m_eos_ok m_lost] in *. exact GR.
+    + right. rewrite <- (set_reg_same (pq e) (s_h o) HL) at 1.
+      replace (mkT (set_reg (pq e) (s_h o) (rget (regs (pq e)) (s_h o))) (objs e) (nawt e) (palive e))
+        with (mkT (set_reg (pq e) (s_h o) l) (objs e) (nawt e) (palive e)) by reflexivity.
+      unfold with_pq. cbn [pq objs nawt palive].
+      apply (local_update e m s o r); try assumption; try reflexivity.
+      * unfold pos_of. fold l. unfold sub_ok. splits; simp_rec; try assumption; try lia.
+        { rewrite AW. destruct (m_pc r); try discriminate; reflexivity. }
+        { intros EO. specialize (PO EO). clear - PO IP. unfold pos_ok in *. simp_rec.
+          destruct (m_pc r); try discriminate; simp_rec; intuition (try discriminate; try congruence). }
+      * apply awt_same_keep; [exact HL|apply (i_awt _ _ I)|apply (i_awt _ _ I)|right; reflexivity].
+  - (* advanced *)
+    rewrite E in *. cbn [fst snd b2z Z.eqb] in *.
+    set (np := if s_mode o =? 1 then Z.max (wrap (r_pos l + 1)) (wrap (qpos (pq e) - zlen (qd (pq e))))
+               else if s_mode o =? 2 then Z.max (wrap (r_pos l + 1)) (wrap (qpos (pq e) - 1))
+               else wrap (r_pos l + 1)) in *.
+    assert (PE : pos_of (set_reg (pq e) (s_h o) (with_pos l np)) (s_h o) = np).
+    { unfold pos_of, set_reg, with_regs. cbn [regs]. rewrite rget_set_same by exact HL. reflexivity. }
+    rewrite PE in *.
+    assert (W2 : wrap (qpos (pq e) - zlen (qd (pq e))) = npub m + 1 - zlen (qd (pq e))).
+    { rewrite G3. apply wrap_small. lia. }
+    assert (W3 : wrap (qpos (pq e) - 1) = npub m) by (rewrite G3; rewrite wrap_small; lia).
+    assert (NPL : r_pos l + 1 <= np).
+    { unfold np. rewrite W1. destruct (s_mode o =? 1); [lia|]. destruct (s_mode o =? 2); lia. }
+    assert (NP0 : s_mode o = 0 -> np = r_pos l + 1).
+    { intros Z0. unfold np. rewrite Z0. cbn. exact W1. }
+    assert (NPU : r_pos l <= npub m -> np <= npub m + 1).
+    { intros H. unfold np. rewrite W1, W2, W3. destruct (s_mode o =? 1); [lia|]. destruct (s_mode o =? 2); lia. }
+    assert (CLO : np = npub m + 1 -> r_pos l <= npub m -> closed (pq e) = true).
+    { intros H1 H2. destruct (closed (pq e)) eqn:CL; [reflexivity|]. exfalso. apply C. split; [|reflexivity].
+      rewrite W1, G3. fold (npub m). unfold np in H1. rewrite W1, W2, W3 in H1.
+      destruct (s_mode o =? 1); [|destruct (s_mode o =? 2)]; lia. }
+    split.
+    + apply good_set_sub; [exact G|]. cbn [rec_good_b m_mode m_start m_deliv m_eos m_eos_ok m_lost] in *. exact GR.
+    + right. unfold with_pq. cbn [pq objs nawt palive].
+      apply (local_update e m s o r); try assumption; try reflexivity.
+      * unfold sub_ok. splits; simp_rec; try assumption; try lia.
+        { rewrite AW. destruct (m_pc r); try discriminate; reflexivity. }
+        { intros EO. specialize (PO EO). rewrite <- KK in *. rewrite <- MD in NP0.
+          clear - PO IP NPL NP0 NPU CLO. unfold pos_ok in *. simp_rec.
+          destruct (m_pc r); try discriminate; simp_rec; intuition (try discriminate; try congruence; try lia; try (apply CLO; lia)). }
+      * apply awt_same_keep; [exact HL|apply (i_awt _ _ I)|apply (i_awt _ _ I)|right; reflexivity].
+Qed.
+
+(* ---- advance_suspend_lk ---- *)
+Lemma advance_suspend_cases q h a :
+  let l := rget (regs q) h in
+  let l1 := with_pos l (wrap (r_pos l + 1)) in
+  (r_kicked l = true /\ advance_suspend_lk q h a = (q, false)) \/
+  (r_kicked l = false /\ closed q = true /\ advance_suspend_lk q h a = (set_reg q h l1, false)) \/
+  (r_kicked l = false /\ closed q = false /\ wrap (r_pos l + 1) = qpos q /\
+   advance_suspend_lk q h a = (set_reg q h (with_awt l1 (Some a)), true)) \/
+  (r_kicked l = false /\ closed q = false /\ wrap (r_pos l + 1) <> qpos q /\
+   advance_suspend_lk q h a = (set_reg q h l1, false)).
+Proof.
+  intros l l1. unfold advance_suspend_lk. fold l. fold l1.
+  destruct (r_kicked l); [left; split; reflexivity|right].
+  destruct (closed q); [left; repeat split; reflexivity|right].
+  cbn [r_pos l1 with_pos].
+  destruct (wrap (r_pos l + 1) =? qpos q) eqn:E; [left|right]; repeat split; try reflexivity; lia.
+Qed.
+
+Lemma step_suspend e m s : good_b m = true -> m_viol m = false -> Inv e m ->
+  R (fst (step e (OSuspend s))) (mon_step m (OSuspend s) (snd (step e (OSuspend s)))).
+Proof.
+  intros G V I. unfold step, step_gen, mon_step. rewrite V.
+  destruct (live_obj e s) as [o|] eqn:L; cbn [fst snd o_st rejected ok3 Z.eqb negb o_a o_b o_c].
+  2:{ apply R_same; assumption. }
+  destruct (inv_rec _ _ _ _ I L) as (r & Gr & LV). rewrite Gr.
+  destruct (m_pc r) eqn:PC; try (apply R_viol; exact G).
+  rewrite LV. cbn [negb orb].
+  destruct (HALF <=? pos_of (fst (advance_suspend_lk (pq e) (s_h o) (nawt e))) (s_h o)) eqn:HB; [apply R_viol; exact G|].
+  pose proof (i_sub _ _ I s o r L Gr) as (U & SB & MD & VM & KK & CU & RG & AW & PO).
+  assert (HL : (s_h o < length (regs (pq e)))%nat) by (apply rget_used_lt; exact U).
+  pose proof (good_rec _ _ _ G Gr) as GR.
+  pose proof (i_g _ _ I) as [G1 G2 G3 G4 G5 G6]. fold (npub m) in *.
+  assert (HW : HALF < W) by reflexivity.
+  set (l := rget (regs (pq e)) (s_h o)) in *.
+  assert (W1 : wrap (r_pos l + 1) = r_pos l + 1) by (apply wrap_small; lia).
+  rewrite PC in AW. cbn [awt_pc] in AW.
+  assert (AWL : awt_of l = []) by (unfold awt_of; rewrite AW; reflexivity).
+  pose proof (i_awt _ _ I) as (AN & AB).
+  destruct (advance_suspend_cases (pq e) (s_h o) (nawt e)) as [(K & E)|[(K & CL & E)|[(K & CL & WP & E)|(K & CL & WP & E)]]];
+    fold l in K, E; try fold l in WP; rewrite E in *; cbn [fst snd b2z Z.eqb] in *.
+  - (* kicked: nothing changes *)
+    split.
+    + apply good_set_sub; [exact G|]. cbn [rec_good_b m_mode m_start m_deliv m_eos m_eos_ok m_lost] in *. exact GR.
+    + right. rewrite <- (set_reg_same (pq e) (s_h o) HL) at 1.
+      apply (local_update e m s o r); try assumption; try reflexivity.
+      * fold l. unfold pos_of. fold l. unfold sub_ok. splits; simp_rec; try assumption; try reflexivity; try lia.
+        intros EO. specialize (PO EO). rewrite <- KK in *.
+        clear - PO PC K. unfold pos_ok in *. rewrite PC in *. simp_rec.
+        intuition (try discriminate; try congruence; try lia).
+      * fold l. destruct (awt_same_keep (regs (pq e)) (s_h o) l (nawt e) HL AN AB) as (A1 & A2); [right; reflexivity|].
+        split; [exact A1|]. intros a Ia. specialize (A2 a Ia). lia.
+  - (* closed: advanced, not parked *)
+    assert (PE : pos_of (set_reg (pq e) (s_h o) (with_pos l (wrap (r_pos l + 1)))) (s_h o) = r_pos l + 1).
+    { unfold pos_of, set_reg, with_regs. cbn [regs]. rewrite rget_set_same by exact HL. cbn [r_pos with_pos]. exact W1. }
+    rewrite PE in *. rewrite W1.
+    split.
+    + apply good_set_sub; [exact G|]. cbn [rec_good_b m_mode m_start m_deliv m_eos m_eos_ok m_lost] in *. exact GR.
+    + right. apply (local_update e m s o r); try assumption; try reflexivity.
+      * unfold sub_ok. splits; simp_rec; try assumption; try reflexivity; try lia.
+        intros EO. specialize (PO EO). rewrite <- KK in *.
+        clear - PO PC K CL. unfold pos_ok in *. rewrite PC in *. simp_rec.
+        intuition (try discriminate; try congruence; try lia).
+      * destruct (awt_same_keep (regs (pq e)) (s_h o) (with_pos l (r_pos l + 1)) (nawt e) HL AN AB) as (A1 & A2);
+          [left; unfold awt_of; cbn [r_awt with_pos]; rewrite AW; reflexivity|].
+        split; [exact A1|]. intros a Ia. specialize (A2 a Ia). lia.
+  - (* parked *)
+    assert (PE : pos_of (set_reg (pq e) (s_h o) (with_awt (with_pos l (wrap (r_pos l + 1))) (Some (nawt e)))) (s_h o)
+                 = r_pos l + 1).
+    { unfold pos_of, set_reg, with_regs. cbn [regs]. rewrite rget_set_same by exact HL. cbn [r_pos with_pos with_awt]. exact W1. }
+    rewrite PE in *. rewrite W1 in *.
+    split.
+    + apply good_set_sub; [exact G|]. cbn [rec_good_b m_mode m_start m_deliv m_eos m_eos_ok m_lost] in *. exact GR.
+    + right. apply (local_update e m s o r); try assumption; try reflexivity.
+      * unfold sub_ok. splits; simp_rec; try assumption; try reflexivity; try lia.
+        intros EO. specialize (PO EO). rewrite <- KK in *. rewrite G3 in WP.
+        clear - PO PC K CL WP. unfold pos_ok in *. rewrite PC in *. simp_rec.
+        intuition (try discriminate; try congruence; try lia).
+      * apply awt_set_fresh; [exact HL|exact AN|exact AB|].
+        right; left. reflexivity.
+  - (* data arrived meanwhile: advanced, not parked *)
+    assert (PE : pos_of (set_reg (pq e) (s_h o) (with_pos l (wrap (r_pos l + 1)))) (s_h o) = r_pos l + 1).
+    { unfold pos_of, set_reg, with_regs. cbn [regs]. rewrite rget_set_same by exact HL. cbn [r_pos with_pos]. exact W1. }
+    rewrite PE in *. rewrite W1 in *.
+    split.
+    + apply good_set_sub; [exact G|]. cbn [rec_good_b m_mode m_start m_deliv m_eos m_eos_ok m_lost] in *. exact GR.
+    + right. apply (local_update e m s o r); try assumption; try reflexivity.
+      * unfold sub_ok. splits; simp_rec; try assumption; try reflexivity; try lia.
+        intros EO. specialize (PO EO). rewrite <- KK in *. rewrite G3 in WP.
+        clear - PO PC K CL WP. unfold pos_ok in *. rewrite PC in *. simp_rec.
+        intuition (try discriminate; try congruence; try lia).
+      * destruct (awt_same_keep (regs (pq e)) (s_h o) (with_pos l (r_pos l + 1)) (nawt e) HL AN AB) as (A1 & A2);
+          [left; unfold awt_of; cbn [r_awt with_pos]; rewrite AW; reflexivity|].
+        split; [exact A1|]. intros a Ia. specialize (A2 a Ia). lia.
+Qed.
